@@ -25,6 +25,8 @@ def has_neg_over_mixed(ast):
         return any(go(c, under_neg or a["k"] in NEGATING) for c in a.get("ch", []))
     return go(ast, False)
 
+@guarded(lambda e, res, ast, m, *a, **k: {"op": "truth-function", "model": ast_json(ast), "env": {}, "required": None, "observed": None,
+                                           "problem": f"evaluate raised {type(e).__name__}: {str(e)[:160]}"})
 def oracle_formula(res, ast, m):
     def ast_ids(a):
         return [a["id"]] if a["k"] in ("str", "var") else [i for c in a.get("ch", []) for i in ast_ids(c)]
